@@ -322,6 +322,12 @@ Theorem C18_check_is_or_of_ands :
 Proof. exact sat_spec. Qed.
 Print Assumptions C18_check_is_or_of_ands.
 
+(* a string that parses has an OR-group and no empty AND-group: never true for lack of constraints *)
+Theorem C18_constraint_nonempty :
+  forall c cs, new_constraint c = Some cs -> cs <> [] /\ Forall (fun g => g <> []) cs.
+Proof. exact new_constraint_nonempty. Qed.
+Print Assumptions C18_constraint_nonempty.
+
 (* the checker sees the version written in a constraint only through its precedence key *)
 Theorem C18_constraint_key_only :
   forall v c c',
@@ -340,6 +346,20 @@ Theorem C18_prerelease_rule :
     ccheck v c = false.
 Proof. exact pre_release_rule. Qed.
 Print Assumptions C18_prerelease_rule.
+
+(* the same rule on constraint STRINGS, per AND-group as the library applies it: a pre-release
+   version satisfies a string only through a non-empty OR-group every member of which names a
+   pre-release version itself or is "!=" with a full version *)
+Theorem C18_prerelease_needs_prerelease_group :
+  forall c v,
+    sat c v = true -> is_stable v = false ->
+    exists cs g, new_constraint c = Some cs /\ In g cs /\ g <> [] /\
+                 (forall k, In k g ->
+                    ccheck v k = true /\
+                    negb (is_stable (k_con k)) ||
+                    (match k_fn k with FNotEqual => true | _ => false end && negb (k_dirty k)) = true).
+Proof. exact prerelease_needs_prerelease_group. Qed.
+Print Assumptions C18_prerelease_needs_prerelease_group.
 
 Theorem C18_not_equal_admits_prerelease :
   forall v con, is_stable v = false -> is_stable con = true -> ccheck v (plain FNotEqual con) = true.
